@@ -230,6 +230,12 @@ def lifecycle_check(prop, tier):
     gen = {"C05": ("c5q", "c5t"), "C07": ("c7q", "c7t"), "C06": ("c6q", "c6t")}.get(prop, ("q", "t"))
     cfg = "MC_LifecycleApi_" + (gen[0] if tier == "quick" else gen[1])
     hists, gr = gen_behaviours(cfg, timeout=3000)
+    if prop == "C07":
+        # the same fake! line installed again while an earlier installation of it is alive (a loop body)
+        hr, gr2 = gen_behaviours("MC_LifecycleApi_c7r", timeout=3000)
+        hists += hr
+        run.states += gr2["distinct"]
+        run.transitions += gr2["generated"]
     if prop in ("C02", "C03", "C12", "C17", "C05") and tier == "quick":
         # longer histories over a minimal alphabet (three installs: A,B,A patterns)
         h3, g3 = gen_behaviours("MC_LifecycleApi_q3", timeout=3000)
@@ -360,6 +366,10 @@ def placement_scenarios(tier):
         add(flavour="raw", func_page=0x200000000, off=64, tramp_delta_pages=1, disp=d)
     for d in [M31 - 1, M31, -M31, -M31 - 1]:
         add(flavour="unchecked", func_page=0x200000000, off=128, tramp_delta_pages=-1, disp=d)
+    # the same boundary with everything below 4 GiB (absolute addresses that fit 32 bits, some with bit 31 set)
+    for d in [M31 - 4096, M31, M31 + 4096, (1 << 31) + (1 << 30), 1 << 30, (3 << 30) - 8192]:
+        add(flavour="raw", func_page=0x10000000, off=64, tramp_delta_pages=1, disp=d)
+        add(flavour="unchecked", func_page=0x4000000, off=16, tramp_delta_pages=-1, disp=d)
     # page offsets (straddling entries) x a few deltas
     for off in offs:
         for dl in ([1, -32767] if tier == "quick" else deltas):
@@ -714,6 +724,9 @@ def times_check(prop, tier):
         for rep in range(4 if tier == "quick" else 25):
             rounds.append({"id": len(rounds) + 1, "n": n, "k_match": n + extra, "k_nomatch": rnd.choice([0, 7]), "threads": 16,
                            "site": len(rounds) % 24, "burst": True})
+    # lifetimes on many threads built through one shared helper line
+    for th, rr in ([(8, 3000), (16, 1500)] if tier == "quick" else [(8, 40000), (16, 20000), (2, 50000)]):
+        rounds.append({"id": len(rounds) + 1, "mode": "helper", "threads": th, "rounds": rr, "site": 23, "n": 1, "k_match": 1, "k_nomatch": 0})
     tgroups, torder, _ = vlib.run_harness("times", rounds, "times_C06", timeout=3000)
     tv2 = tlc.validate_traces("Trace_Times", "Trace_Times", [(r["id"], tgroups.get(r["id"], [])) for r in rounds], WORK,
                               "trace_times", timeout=3000)
@@ -730,7 +743,7 @@ def times_check(prop, tier):
             reached, total = tv2["progress"][sid]
             evs = tgroups.get(sid, [])
             r = byid[sid]
-            run.violation("C06 concurrent n=%s k_match=%s k_nomatch=%s threads=%s" % (r["n"], r["k_match"], r["k_nomatch"], r["threads"]),
+            run.violation("C06 %s n=%s k_match=%s k_nomatch=%s threads=%s" % (r.get("mode", "concurrent"), r["n"], r["k_match"], r["k_nomatch"], r["threads"]),
                           {"round": r, "trace_rejected_at": reached,
                            "first_unmatched_event": evs[reached] if reached < len(evs) else None, "events": evs[-30:]})
     run.sample({"round": rounds[len(rounds) // 2], "events": tgroups.get(rounds[len(rounds) // 2]["id"], [])[:8]})
@@ -1138,6 +1151,28 @@ def sig_check(prop, tier):
                 run.violation("C10 stub v=%s page_off=%s" % (byid[sid].get("boolv"), byid[sid].get("off")),
                               {"scenario": byid[sid], "first_unmatched_event": evs[reached] if reached < len(evs) else None})
         regs_part(run, "C10", tier)
+        # a forced boolean installed on top of (or underneath) other fakes of the same function: every call while it is the
+        # newest installation returns exactly the value
+        hists, gr = gen_behaviours("MC_LifecycleApi_q", timeout=3000)
+        hists = [h for h in hists if any(x["act"] == "Install" and x["kind"] == "bool" and x["gate"] == "ok" for x in h)
+                 and sum(1 for x in h if x["act"] == "InstallOk") >= 2]
+        run.states += gr["distinct"]
+        run.transitions += gr["generated"]
+        lscen = [hist_to_scenario(h, i, "rust", 2, diff=False) for i, h in enumerate(hists, 1)]
+        lg, lo, _ = vlib.run_harness("lifecycle", lscen, "lifecycle_C10")
+        cfg3 = tlc.make_cfg("Trace_Api", {"Props": '{"C10", "ALL"}'}, "Trace_Api_C10")
+        tv3 = tlc.validate_traces("Trace_Api", cfg3, [(i, lg.get(i, [])) for i in range(1, len(hists) + 1)], WORK, "trace_C10l", timeout=3000)
+        run.traces += len(tv3["accepted"])
+        run.states += tv3["states"]
+        run.transitions += tv3["transitions"]
+        run.extra["refake_histories"] = {"behaviours": len(hists), "accepted": len(tv3["accepted"])}
+        for sid in tv3["ids"]:
+            run.note_case("refake " + history_key(hists[sid - 1]))
+            if sid not in tv3["accepted"]:
+                evs = lg.get(sid, [])
+                reached, total = tv3["progress"][sid]
+                run.violation("C10 history=%s" % history_key(hists[sid - 1]),
+                              {"behaviour": hists[sid - 1], "first_unmatched_event": evs[reached] if reached < len(evs) else None})
     return run.finish()
 
 
@@ -1260,7 +1295,7 @@ def async_check(prop, tier):
     limit = 1500 if tier == "quick" else 20000
     hists = withfake[:limit] + nofake[:40]
     vlib.build_harness()
-    scen = [{"id": i, "mode": "seq", "steps": h} for i, h in enumerate(hists, 1)]
+    scen = [{"id": i, "mode": "seq", "steps": h, "unmet_counted": (i % 4 == 0)} for i, h in enumerate(hists, 1)]
     scen.append({"id": len(scen) + 1, "mode": "shapes"})
     groups, order, _ = vlib.run_harness("asyncs", scen, "asyncs_C14", timeout=3000)
     import concurrent.futures
